@@ -47,6 +47,7 @@ Viol = Tuple[str, str]  # (class, one-line description)
 # appended to the class when the program has code that lies in main's and in a subroutine's body, or in two subroutines'
 # bodies (a subroutine body entered other than through callsub: outside C17's input space, inside C04/C05/C12's)
 SHARED_TAG = " [shared-body]"
+D25_CLASSES = ("walk-edge-missing-in-", "construct_function-crash:KeyError", "global-edges-crash:KeyError", "Function-init-crash:KeyError")
 
 
 # ======================================================================================================================
@@ -595,8 +596,11 @@ def finish(pid: str, name: str, tot: Dict[str, Any], known: Any, summary: Dict[s
     for cls in sorted(tot["counts"], key=lambda c: (tot["examples"][c]["_size"], c)):
         base = cls.replace(SHARED_TAG, "")
         fid = CLASS_TO_FINDING.get(cls) or CLASS_TO_FINDING.get(base) or CLASS_TO_FINDING.get(base.split(":")[0])
-        if SHARED_TAG in cls:
-            fid = "D25"   # code shared between main and a subroutine body / two subroutine bodies (listed finding)
+        if SHARED_TAG in cls and base.startswith(D25_CLASSES):
+            # code shared between main and a subroutine body / two subroutine bodies (listed finding D25): block.subroutine is
+            # overwritten, so global edges are lost and the analyses raise KeyError.  Only these classes are D25's; any
+            # other failure on such a program (e.g. blocks listed twice) is reported.
+            fid = "D25"
         cnt = tot["counts"][cls]
         if fid and fid in known_ids:
             attributed[fid] = attributed.get(fid, 0) + cnt
